@@ -22,10 +22,35 @@ def instances(rng, tier, n_uni, per_uni):
         for _ in range(per_uni):
             try:
                 obj = G.gen_instance(rng, u, "Root")
+                if rng.random() < 0.35:
+                    add_derived(rng, u, obj)
             except Exception:  # noqa: BLE001
                 continue
             yield u, desc, ctx, obj
     yield from score_instances(rng, max(4, n_uni // 6))
+
+
+def add_derived(rng, u, obj):
+    """bindgen never puts a DerivedElement into a wildcard: append one to every wildcard list of the root —
+    a model instance with its xsi:type (what XmlParser builds for <x xsi:type="Leaf0">), a primitive, or
+    (rarely) a model instance without type, which is the region of C04-derived-without-type"""
+    from xsdata.formats.dataclass.context import XmlContext
+    from xsdata.formats.dataclass.models.generics import DerivedElement
+
+    others = [n for n in u.classes if n != "Root"]
+    for f in G.all_fields(u, "Root"):
+        md = f.get("metadata", {})
+        if md.get("type") != "Wildcard" or not (isinstance(f["type"], dict) and "list" in f["type"]):
+            continue
+        r = rng.random()
+        if r < 0.25 or not others:
+            item = DerivedElement(qname=rng.choice(["p", "{urn:d}p"]), value=G.rprim(rng, rng.choice(["str", "int", "bool"])), type=None)
+        else:
+            name = rng.choice(others)
+            inst = G.gen_instance(rng, u, name, 1)
+            tq = XmlContext().build(u.classes[name]).target_qname
+            item = DerivedElement(qname=rng.choice(["d", "{urn:d}d"]), value=inst, type=tq if r < 0.9 else None)
+        getattr(obj, f["name"]).insert(rng.randint(0, len(getattr(obj, f["name"]))), item)
 
 
 # a universe in which the score of bind_best_dataclass decides: two compound choices whose classes
@@ -88,6 +113,34 @@ def impl_enc(a):
         return {"err": "NON-NATIVE:" + str(e)}
 
 
+def _features(a):
+    d = json.dumps(a.get("desc", {}))
+    v = json.dumps(a.get("value", {}))
+    tags = [t for t, pat in (("wrap", '"wrapper"'), ("comp", '"Elements"'), ("wild", '"Wildcard"'), ("attrs", '"Attributes"'),
+                             ("tok", '"tokens": true'), ("sub", '"bases"')) if pat in d]
+    tags += [t for t, pat in (("any", '"any"'), ("derived", '"derived"')) if pat in v]
+    return "+".join(tags) or "plain"
+
+
+def classify_enc(a, o):
+    r = "ok" if "ok" in o else o.get("err", "?")
+    return f"{a['factory']}:{a.get('route', 'dict')}:{'doc-list' if 'list' in a['value'] else 'doc-one'}:{_features(a)}:{r}"
+
+
+def classify_flags(a, o):
+    def shape(v):
+        if v is None:
+            return "none"
+        if "enum" in v:
+            return ("mixin-" if v["enum"]["mixin"] else "enum-") + shape(v["enum"]["value"])
+        if "list" in v:
+            return "list[" + ",".join(sorted({shape(x) for x in v["list"]})) + "]"
+        if "model" in v:
+            return "model"
+        return "prim"
+    return f"wrapper={'y' if a['wrapper'] else 'n'}:wrapped={'y' if a['wrapped'] else 'n'}:{shape(a['value'])[:40]}"
+
+
 def cmp_skip(mo, io, a):
     if unsupported(mo):
         return True
@@ -142,7 +195,11 @@ def cmp_member(mo, io, a):
 def classify_dec(a, o):
     k = a.get("_kind", "?")
     r = "ok" if "ok" in o else o.get("err", "unsupported")
-    return f"{k}:{r}"
+    t = a.get("target")
+    tk = "detect" if t is None else ("list" if "list" in t else "cls")
+    cfg = a.get("config") or {}
+    lenient = "L" if cfg.get("fail_on_unknown_properties") is False else "S"
+    return f"{k}:{tk}:{lenient}:{r}"
 
 
 def gen_rt(rng, tier):
@@ -164,8 +221,10 @@ def impl_rt(a):
 
 def classify_rt(a, o):
     if "ok" in o:
-        return "identity" if o["ok"] == a["value"] else "changed"
-    return o.get("err", "?")
+        r = "identity" if o["ok"] == a["value"] else "changed"
+    else:
+        r = o.get("err", "?")
+    return f"{a['factory']}:{a.get('route', 'dict')}:{_features(a)}:{r}"
 
 
 # ------------------------------------------------------------------ spec level: the richer primitive types
@@ -187,9 +246,69 @@ def spec_e2e(a):
     return R.expected(a)
 
 
+def gen_shared(rng, tier):
+    for _ in range(n_cases(tier, 60, 800)):
+        seeds = [rng.randrange(10**9) for _ in range(rng.randint(2, 3))]
+        steps = [[s, rng.choice(["single", "list"])] for s in seeds]
+        steps += [list(rng.choice(steps)) for _ in range(rng.randint(1, 2))]      # come back to an earlier universe
+        rng.shuffle(steps)
+        yield {"steps": steps, "factories": rng.choice([["dict"], ["filter_none"], ["dict", "filter_none"], ["filter_none", "dict"]])}
+
+
+def impl_shared(a):
+    return {"ok": R.run_shared(a)}
+
+
+def spec_shared(a):
+    """sharing one XmlContext / encoder / decoder between universes with equal class names and between
+    repeated calls changes nothing: every step ends as it does with fresh objects"""
+    return {"ok": R.expected_shared(a)}
+
+
+def oracle_shared_check(a):
+    got, want = R.run_shared(a), R.expected_shared(a)
+    for i, (g, w) in enumerate(zip(got, want)):
+        if g != w:
+            return f"step {i} of {a['steps']} (factories {a['factories']}) through a shared context: {json.dumps(g)[:500]}, with fresh objects: {json.dumps(w)[:200]}"
+    return None
+
+
+def classify_shared(a, o):
+    return f"steps={len(a['steps'])}:factories={'+'.join(a['factories'])}"
+
+
 def classify_e2e(a, o):
     r = o.get("ok", {})
     return "faithful" if r == R.EXPECTED else "not-faithful"
+
+
+# ------------------------------------------------------------------ dict.valok: the hypothesis of dict_rt on real universes
+def gen_valok(rng, tier):
+    for u, desc, ctx, obj in instances(rng, tier, n_cases(tier, 80, 900), 5):
+        yield {"ctx": ctx, "value": u.to_val(obj), "clazz": "Root", "factory": rng.choice(["dict", "filter_none"]),
+               "desc": desc, "_uni": u.modname}
+
+
+def impl_valok(a):
+    """what the real code does with the instance: both routes give the object back, or not"""
+    msg = oracle_check({"value": a["value"], "target": {"cls": a["clazz"]}, "factory": a["factory"], "desc": a["desc"], "_uni": a.get("_uni")})
+    return {"ok": {"identity": msg is None, "why": msg}}
+
+
+def cmp_valok(mo, io, a):
+    """`valOKj` (resp. `valOKu` in a universe without subclass pools) promises the round trip"""
+    if "ok" not in mo or "ok" not in io:
+        return False
+    m = mo["ok"]
+    if m["typed"] and m["no_subclass_pools"] and not m["in_fragment"]:
+        return False                     # dict_rt_universe: valOKu + noSubclassPools -> valOKj
+    if m["in_fragment"]:
+        return io["ok"]["identity"]
+    return True
+
+
+def classify_valok(a, o):
+    return "identity" if o.get("ok", {}).get("identity") else "not-identity"
 
 
 # ------------------------------------------------------------------ dict.encflags: encode(value, var, wrapped) literally
@@ -287,16 +406,22 @@ def impl_encflags(a):
 
 
 CORRS = [
-    Corr("dict.enc", gen_enc, impl_enc, compare=cmp_skip,
+    Corr("dict.enc", gen_enc, impl_enc, compare=cmp_skip, classify=classify_enc,
          describe="DictEncoder.encode / JsonSerializer.render (+json.loads) vs model, both factories; the harness rejects non JSON-native outputs"),
     Corr("dict.dec", gen_dec, impl_dec, compare=cmp_member, classify=classify_dec,
          describe="DictDecoder.decode / JsonParser.from_string vs model on real encodings and single-point faults (unknown keys, wrong shapes), "
                   "explicit / list / detected target"),
     Corr("dict.roundtrip", gen_rt, impl_rt, compare=cmp_member, classify=classify_rt,
          describe="real encode+decode (dict and JSON text routes) vs model encode+decode"),
-    Corr("dict.encflags", gen_encflags, impl_encflags, compare=cmp_skip,
+    Corr("dict.valok", gen_valok, impl_valok, compare=cmp_valok, classify=classify_valok,
+         describe="the decidable hypothesis of dict_rt (valOKj, valOKu, noSubclassPools) evaluated by the driver on generated universes and "
+                  "instances; whenever it holds the real DictEncoder/DictDecoder and JsonSerializer/JsonParser must give the object back"),
+    Corr("dict.encflags", gen_encflags, impl_encflags, compare=cmp_skip, classify=classify_flags,
          describe="DictEncoder.encode(value, var, wrapped) on one real XmlVar (with / without wrapper, both flag values) over nested lists, "
                   "Enum members (plain, IntEnum / str mixed-in, over primitives and tuples), primitives, None and model instances vs encFlagsF"),
+    Corr("c04.shared", gen_shared, impl_shared, spec=spec_shared, classify=classify_shared,
+         describe="spec-level: several rich universes with equal class names and repeated documents through ONE XmlContext, encoder, decoder, "
+                  "serializer and parser (both factories interleaved); expected: every step as with fresh objects"),
     Corr("c04.e2e", gen_e2e, impl_e2e, spec=spec_e2e, classify=classify_e2e,
          describe="spec-level: seeded universes over float / Decimal / Union[int,float] / Union[int,str] / Union[float,str] / bytes base16+base64 / "
                   "XmlDate / XmlDateTime / XmlDuration / str and int enums (scalar, Optional, List, nested models, list documents), both factories, "
@@ -318,22 +443,26 @@ ASSUMPTIONS = [
     "AnyElement / DerivedElement metadata is exported like a user class and added to the context under the ids AnyElement / DerivedElement",
 ]
 LEVEL_TEXT = (
-    "Lean theorems for all class universes / instances of the typed fragment valOKj (str/int/bool, model-class, list and wrapped-list "
-    "fields, both dictionary factories, every parser config): dict_rt, list_rt, json_rt, encode_json_native, best_match_unique; "
-    "the full-strength statement is still refuted by two witnesses on real exported contexts that are inherent in the untagged JSON shape "
-    "(subclass ambiguity, model instance under a wildcard; known findings, replayed on /repo); the former counterexamples for FILTER_NONE "
-    "generic elements, wrapped lists in candidate pools and compound str/int are now positive theorems (filter_none_any_roundtrip, "
-    "wrapper_best_roundtrip, compound_exact_type_first) after the repairs; "
-    "model tied to /repo by dict.enc / dict.dec / dict.roundtrip on generated universes incl. wildcard, compound, attributes, tokens, "
-    "wrapper, inheritance, unknown keys and wrong shapes."
+    "Lean theorems for all class universes / instances of the fragment valOKj — typed str/int/bool/QName fields, model-class fields, "
+    "lists and wrapped lists of both, tokens fields, compound fields (primitives by exact type, instances singled out by their keys), "
+    "xs:anyAttribute maps, wildcard fields (single, list, mixed) holding generic AnyElements of any nesting, primitives and None; both "
+    "dictionary factories, every parser config: dict_rt, dict_rt_universe (typing suffices in universes without subclass pools), list_rt, "
+    "json_rt, encode_json_native, best_match_unique; Props/C04Wrap.lean: the wrapped flag and Enum members of the encoder "
+    "(wrapper_once, wrapped_enum_list). The op dict.valok evaluates the hypotheses on generated universes (about 85 % of the instances "
+    "are inside the fragment) and demands the real round trip whenever they hold. The full-strength statement is still refuted by two "
+    "witnesses on real exported contexts that are inherent in the untagged JSON shape (subclass ambiguity, model instance under a "
+    "wildcard; known findings, replayed on /repo); model tied to /repo by dict.enc / dict.dec / dict.roundtrip / dict.encflags on "
+    "generated universes incl. derived elements, unknown keys and wrong shapes, and by the spec-level ops c04.e2e / c04.shared."
 )
 LEVEL_NOTE = (
     "The `wrapped` flag of DictEncoder.encode and Enum members are modelled literally in Dict/EncodeFlags.lean (op dict.encflags, "
     "theorems wrapper_once / wrapped_ignores_wrapper in Props/C04Wrap.lean). "
     "float, Decimal, unions of primitives, bytes, XmlDate/XmlDateTime/XmlDuration and enums are not in the Lean layer: they are "
     "covered by the spec-level op c04.e2e and the oracle rich_types_roundtrip on the real code only (harness/c04_rich.py). "
-    "Outside the proved fragment (executable model + correspondence only): tokens, QName primitives, attributes maps, wildcards, "
-    "compound fields, unions, detect-type (clazz=None), ignore_default_attributes. Untyped (anyType) primitive fields are outside the property."
+    "Outside the proved fragment (executable model + correspondence only): DerivedElement values, unions, lists of tokens, compound "
+    "fields holding None, detect-type (clazz=None), ignore_default_attributes. The JSON text grammar is not modelled: json_rt assumes a "
+    "library that is inverse on JSON-native values (checked on the real json module by the route=json cases, indentation varied). "
+    "Untyped (anyType) primitive fields are outside the property."
 )
 
 
@@ -415,25 +544,56 @@ def covered(a, msg):
     route = next((rt for pre, rt in _ROUTE_OF_MSG if msg.startswith(pre)), None)
     if route is None:
         return None
-    args = {"ctx": D.export_ctx(u), "value": a["value"], "target": a["target"], "factory": a.get("factory", "dict"), "config": {},
-            "ignore_default_attributes": False, "route": route, "desc": a.get("desc"), "_uni": a.get("_uni")}
+    # the admissible results multiply over the ambiguous objects of a document (3 candidates each in a two-level
+    # subclass chain): a list document is replayed item by item, the items decode independently
+    value, target = a["value"], a["target"]
+    if isinstance(value, dict) and "list" in value and target and "list" in target:
+        parts = [(v, {"cls": target["list"]}) for v in value["list"]]
+    else:
+        parts = [(value, target)]
+    ctx = D.export_ctx(u)
     from framework import Driver
 
-    try:
-        mo = Driver().run([{"op": "dict.roundtrip", "args": args}])[0]
-    except Exception:  # noqa: BLE001  (no driver: nothing can be attributed to a finding)
-        return None
-    io = impl_rt(args)
-    if unsupported(mo) or not isinstance(mo, dict):
-        return None
-    if "ok" in mo:
-        if mo["ok"] == [a["value"]]:
-            return None  # the unchanged code round-trips this input
-        if "ok" not in io or io["ok"] not in mo["ok"]:
+    changed = False
+    for v, t in parts:
+        if _ambiguous_objects(v) > 9:
+            # more than 3^9 admissible results: not enumerable in the time of a check; the item is attributed by its
+            # region alone (the predicate used before the replay was introduced)
+            changed = True
+            continue
+        args = {"ctx": ctx, "value": v, "target": t, "factory": a.get("factory", "dict"), "config": {},
+                "ignore_default_attributes": False, "route": route, "desc": a.get("desc"), "_uni": a.get("_uni")}
+        try:
+            mo = Driver().run([{"op": "dict.roundtrip", "args": args}])[0]
+        except Exception:  # noqa: BLE001  (no driver: nothing can be attributed to a finding)
             return None
-    elif mo != io:
-        return None
+        io = impl_rt(args)
+        if unsupported(mo) or not isinstance(mo, dict):
+            return None
+        if "ok" in mo:
+            if mo["ok"] != [v]:
+                changed = True
+            if "ok" not in io or io["ok"] not in mo["ok"]:
+                return None
+        else:
+            changed = True
+            if mo != io:
+                return None
+    if not changed:
+        return None  # the unchanged code round-trips this input
     return sorted(r)[0]
+
+
+def _ambiguous_objects(v):
+    """number of model instances in the value (each may have several admissible classes)"""
+    if isinstance(v, dict):
+        if "obj" in v:
+            return 1 + sum(_ambiguous_objects(x) for _, x in v["fields"])
+        if "list" in v:
+            return sum(_ambiguous_objects(x) for x in v["list"])
+        if "derived" in v:
+            return _ambiguous_objects(v["derived"]["value"])
+    return 0
 
 
 # ------------------------------------------------------------------ known findings (replayed on the real code)
@@ -514,5 +674,6 @@ FINDINGS = {
 
 ORACLES = [
     Oracle("dict_json_roundtrip", oracle_gen, oracle_check, covered=covered, from_ops=("dict.roundtrip", "dict.enc"), adapt=oracle_adapt),
+    Oracle("shared_context_roundtrip", gen_shared, oracle_shared_check, from_ops=("c04.shared",)),
     Oracle("rich_types_roundtrip", oracle_rich_gen, oracle_rich_check, covered=covered_rich, from_ops=("c04.e2e",)),
 ]
